@@ -1,0 +1,67 @@
+//go:build verif
+
+// Contracts for package model, checked by /verif (goverif). Comment-only file: it is
+// compiled only under the build tag `verif` and contains no executable code.
+package model
+
+//@ methods (*BinaryModel)
+//@   requires self != nil
+
+//@ func (*BinaryModel).AddSyntaxError
+//@   ensures len(m.SyntaxErrors) == old(len(m.SyntaxErrors)) + 1
+//@   ensures m.SyntaxErrors[old(len(m.SyntaxErrors))] == error
+
+//@ pred fieldsNonNil(p *Packet) := forall(j, 0, len(p.Fields), p.Fields[j] != nil)
+
+//@ func (*BinaryModel).AddPacket
+//@   requires packet != nil && m.PacketsMap != nil
+//@   requires packetsNonNil(m) && fieldsNonNil(packet)
+//@   ensures  packetsNonNil(m)
+
+//@ pred metaAttr(a FieldAttribute) := typeis(a, *BasicFieldAttribute) || typeis(a, *FixedStringFieldAttribute) || typeis(a, *DynamicStringFieldAttribute)
+//@ pred metaWF(m *BinaryModel) := forallkey(k, m.MetaDataMap, metaAttr(m.MetaDataMap[k].Attr))
+//@ pred modelOK(m *BinaryModel) := m != nil && m.MetaDataMap != nil && m.Options != nil && m.PacketsMap != nil
+
+//@ func (*BinaryModel).AddMetaData
+//@   requires m.MetaDataMap != nil
+//@   requires metaWF(m) && metaAttr(metaData.Attr)
+//@   ensures  metaWF(m)
+
+//@ func (*BinaryModel).AddOption
+//@   requires m.Options != nil
+
+//@ func (Field).GetType
+//@   requires attrKind(f.Attr)
+//@   requires typeis(f.Attr, *ObjectFieldAttribute) ==> unbox(f.Attr, *ObjectFieldAttribute).RefPacket != nil
+
+//@ pred attrKind(a FieldAttribute) := typeis(a, *BasicFieldAttribute) || typeis(a, *LengthFieldAttribute) || typeis(a, *LengthOfAttribute) || typeis(a, *CheckSumFieldAttribute) || typeis(a, *FixedStringFieldAttribute) || typeis(a, *DynamicStringFieldAttribute) || typeis(a, *ObjectFieldAttribute) || typeis(a, *MatchFieldAttribute)
+
+//@ pred packetsNonNil(m *BinaryModel) := forall(i, 0, len(m.Packets), m.Packets[i] != nil && forall(j, 0, len(m.Packets[i].Fields), m.Packets[i].Fields[j] != nil))
+
+//@ func (*BinaryModel).ResolveDependencies
+//@   requires packetsNonNil(m)
+
+//@ func NewBinaryModel
+//@   ensures modelOK(result) && fresh(result) && metaWF(result) && len(result.Packets) == 0
+
+//@ func NewConfiguration
+//@   ensures result != nil && fresh(result) && result.Padding != nil
+
+// ---------------------------------------------------------------- model well-formedness (WF)
+// Type invariants of a finished model, assumed by the generators (phase B) for every object that
+// existed before the generator was called. The generators are proved not to write such objects
+// (FRAME), so the invariants are stable. Elements of model slices and values of model maps are
+// non-nil (clause wf.elems, built into the engine).
+
+//@ inv *BinaryModel: self.Config != nil && self.PacketsMap != nil
+//@ inv *Configuration: self.Padding != nil
+//@ inv *Field: attrKind(self.Attr)
+//@ inv *Field: typeis(self.Attr, *ObjectFieldAttribute) ==> unbox(self.Attr, *ObjectFieldAttribute).RefPacket != nil
+//@ inv *Field: typeis(self.Attr, *MatchFieldAttribute) ==> unbox(self.Attr, *MatchFieldAttribute).MatchKeyField != nil && len(unbox(self.Attr, *MatchFieldAttribute).MatchPairs) >= 1
+//@ inv *Field: typeis(self.Attr, *LengthFieldAttribute) ==> unbox(self.Attr, *LengthFieldAttribute).TragetField != nil
+//@ inv *Field: typeis(self.Attr, *FixedStringFieldAttribute) ==> 0 <= unbox(self.Attr, *FixedStringFieldAttribute).Length && unbox(self.Attr, *FixedStringFieldAttribute).Length <= 2147483647
+//@ inv *FixedStringFieldAttribute: 0 <= self.Length && self.Length <= 2147483647
+//@ inv *Packet: forall(j, 0, len(self.Fields), typeis(self.Fields[j].LenAttr, *LengthFieldAttribute) ==> self.LengthField != nil)
+//@ inv *ObjectFieldAttribute: self.RefPacket != nil
+//@ inv *MatchFieldAttribute: self.MatchKeyField != nil && len(self.MatchPairs) >= 1
+//@ inv *LengthFieldAttribute: self.TragetField != nil
